@@ -131,6 +131,10 @@ class VTr:
             x, t = self.expr(e.args[0])
             if t == 's':
                 return f'(sqrt {x})', 's'
+        if f in ('np.copysign', 'truenp.copysign') and len(e.args) == 2:
+            (a, ta), (b, tb) = self.expr(e.args[0]), self.expr(e.args[1])
+            if ta == tb == 's':
+                return f'(csgn {a} {b})', 's'
         if f in ('np.where', 'truenp.where') and len(e.args) == 3:
             c = e.args[0]
             if isinstance(c, ast.Compare) and len(c.ops) == 1 and isinstance(c.ops[0], (ast.Eq, ast.NotEq)):
@@ -260,9 +264,10 @@ def generate(repo):
         lets, ret = run_block(fn.body, tr)
         x, t = tr.expr(ret)
         assert t == 'v'
-        return lean_def('refract', '(sqrt : K → K) (n nprime : K) (S r : V3 K)', 'V3 K', lets, x)
+        return lean_def('refract', '(sqrt : K → K) (csgn : K → K → K) (lt : K → K → Bool) (n nprime : K) (S r : V3 K)', 'V3 K', lets, x)
     g.item('refract', 'prysm/x/raytracing/spencer_and_murty.py:refract', lambda: get_def(sm, 'refract'), refract,
-           f'def refract (sqrt : K → K) (n nprime : K) (S r : V3 K) : V3 K := {M}.refract sqrt n nprime S r')
+           f'def refract (sqrt : K → K) (csgn : K → K → K) (lt : K → K → Bool) (n nprime : K) (S r : V3 K) : V3 K :=\n'
+           f'  {M}.refract sqrt lt n nprime S r')
 
     # ---------------------------------------------------------------- raytrace: what reflect / refract are handed
     def call_sites():
